@@ -15,6 +15,12 @@ PROP = "C14"
 HOLDERS = ["dense", "sparse", "ktensor", "ttensor", "ttensor_sparse_core"]
 
 
+def flag(v, c):
+    """the type of the flag is a presentation: Python bool, numpy bool (the result of a comparison), or 0 / 1"""
+    k = (int(c.get("n", 0)) + int(c.get("r", 0))) % 3
+    return [bool(v), np.bool_(v), int(bool(v))][k]
+
+
 def qmat(rot: str, n: int):
     Q = np.eye(n)
     if rot == "swap":
@@ -69,7 +75,7 @@ def exact_event(c: dict, holder: str) -> dict:
             import c05
             T = build(tuple(c["shape"]), c["entries"], c["n"], c["rot"], holder)
             snap = c05.snapshot(T)
-            v = T.nvecs(c["n"], c["r"], flipsign=bool(c["flipsign"]))
+            v = T.nvecs(c["n"], c["r"], flipsign=flag(c["flipsign"], c))
             kept = c05.snapshot(T) == snap
         v = np.asarray(v)
         real = not np.iscomplexobj(v) or bool(np.all(np.abs(v.imag) == 0)) and False
@@ -143,7 +149,7 @@ def general_event(c: dict, holder: str) -> dict:
         snap = c05.snapshot(T)
         with warnings.catch_warnings():
             warnings.simplefilter("ignore")
-            v = np.asarray(T.nvecs(c["n"], c["r"], flipsign=bool(c["flipsign"])))
+            v = np.asarray(T.nvecs(c["n"], c["r"], flipsign=flag(c["flipsign"], c)))
         kept = c05.snapshot(T) == snap
         real = not np.iscomplexobj(v)
         v = np.real(v)
